@@ -2,6 +2,15 @@
 import glob, json, os, subprocess, sys
 rnd = sys.argv[1]
 FOCUS = {
+    "9": ("This time PREFER a bug of one of these kinds: (i) a LOOP over several columns / row groups / pages / files in which only the FIRST or the "
+          "LAST element (or every element after the first) is handled differently: an off-by-one on the last page, state left over from the previous "
+          "column or row group, something computed once outside the loop that should be per element; (ii) a condition on the KIND of a dtype or type "
+          "(signed vs unsigned, float32 vs float64, bool, fixed-width vs variable-width bytes, tz-aware vs naive, ordered vs unordered categories) that "
+          "takes the wrong branch for ONE kind only; (iii) SPECIAL VALUES in comparisons and ordering (NaN, -0.0, NaT, infinities, empty string vs "
+          "missing, non-ASCII and surrogate-free 4-byte UTF-8 text, bytes with embedded NUL, negative timestamps before 1970); (iv) the LESS TRAVELLED "
+          "public entry points (ParquetFile.head, .count, .info, iter_row_groups with filters, read_row_group_file, check_categories, "
+          "update_file_custom_metadata, merge, metadata_from_many, write_row_groups with sort_key, ParquetFile over a list of paths or with open_with/fs, "
+          "write(..., append='overwrite')). "),
     "8": ("This time PREFER a bug of one of these kinds: (i) behaviour that depends on WHO wrote the file or on optional parts of the format being "
           "absent or present (files of other writers, footers without created_by / key-value metadata / statistics / pandas metadata, mixed sets "
           "of files, metadata written by an older version); (ii) pandas-3 specific dtypes and values (the new str dtype, nullable Float32/Float64, "
